@@ -47,6 +47,46 @@ CHECKS["C16"] = (
     "Purity of the user kernel and atomicity of disjoint NumPy slice writes are hypotheses (runtime); races inside "
     "a single kernel invocation are not modelled (partial).")
 
+CHECKS["C01"] = (
+    "Lean 4 proof (Mathlib BigOperators) over an executable model of _assemble + exact correspondence on the "
+    "implementation's own basis data",
+    "Theorems for any commutative ring, any sizes, DOF tables, basis data, parameters, weights and coefficient "
+    "vectors, and any integrand additive and homogeneous in trial and test argument: v^T A u = a(u_h, v_h), "
+    "b^T v = l(v_h), s = J with the basis' quadrature; the flat position, row (= test DOF) and column (= trial DOF) "
+    "of every triplet; the three form types are mutually consistent (functional of the interpolated fields); dense "
+    "entries, harmlessness of dropped zeros, sparsity; the grammar integrands are bilinear. The executable model is "
+    "run on the implementation's element_dofs / basis / dx / normalised parameters (exact rationals of the doubles) "
+    "for random bases of all four kinds and compared with the raw output of BilinearForm/LinearForm/Functional."
+    "_assemble and with basis.interpolate; the three-forms identity is evaluated on the implementation as search.",
+    "That basis.basis/dx hold the right numbers is C09/C10/C02. Complex dtype and threaded kernels are covered by "
+    "the search (and C16) only; TrilinearForm is not modelled (partial).")
+CHECKS["C05"] = (
+    "Lean 4 proof (Mathlib) over dense semantics + CSR index arithmetic lifted from the live source + exact "
+    "correspondence",
+    "Theorems for any commutative ring/field, any size, any kept/constrained split given as either set in any "
+    "order with repetitions: _init_bc (complement, error cases), expansion, condense+solve+expand satisfies x on D "
+    "and the ORIGINAL equations on the kept rows, enforce rows are diag*e_i / rhs x_i / others untouched and has the "
+    "same solutions, penalize differs only in diagonal and rhs with error = -eps * coupling, the repaired CSR "
+    "row-zeroing arithmetic equals the stored ranges of the rows (rows without stored entries included) and zeroes "
+    "exactly those rows of the dense matrix; counterexample theorems for the arithmetic of the pinned tree. The "
+    "model is compared exactly with _init_bc/condense/enforce/penalize on random sparse systems, the idx statements "
+    "of enforce are lifted from the live source and compared with the model; residuals, row structure, matrix "
+    "right-hand sides, DOF-collection types, mpc and operand checksums are evaluated on the implementation.",
+    "spsolve and SciPy setdiag/diagonal/slicing are trusted contracts; mpc has no theorem yet (search only); real "
+    "aliasing (overwrite=False) is runtime and covered by checksums (partial).")
+CHECKS["C08"] = (
+    "Lean 4 reflection (decide +kernel on tables regenerated from the source) lifted to all polynomials and orders",
+    "Every triangle, tetrahedron and Gauss-Legendre (up to 20 points) table is re-extracted from the live module on "
+    "every run as exact dyadic integers and kernel-checked: all monomials up to the advertised degree within 2^-40, "
+    "nodes in the closed cell, weights sum to the measure. Theorems lift this to EVERY polynomial of the degree "
+    "(error <= 2^-40 * l1 norm), to every requested order through the clamping/lookup model (error iff key absent), "
+    "and through the tensor constructions to quadrilateral, hexahedron and prism (3eps/7eps). Lookup, clamping, "
+    "error behaviour and the meshgrid/flatten tensor constructions are compared with get_quadrature for all cells "
+    "and orders -3..45; every returned rule is also evaluated in exact rational arithmetic on every monomial.",
+    "Exactness of leggauss beyond 20 points (orders > 39) is search only; rounding of tensor weight products is not "
+    "modelled; the Dirichlet formula for monomial integrals is part of the statement (cross-checked). Finite "
+    "domain explored exhaustively.")
+
 NOT_YET = {}
 
 
